@@ -28,7 +28,7 @@ EXHAUSTIVE = False
 WEIGHTS = {'add': 10, 'add_fwd': 3, 'remove': 3, 'remove_nonchild': 2, 'replace': 2, 'replace_nonchild': 1,
            'dot_inst': 2, 'dot_val': 2, 'dot_none': 2, 'to_string': 3, 'set_attr': 2, 'set_attr_none': 1,
            'set_value': 1, 'add_nested': 2, 'remove_grandchild': 1, 'remove_elsewhere': 1,
-           'share_out': 1, 'add_again': 1}
+           'share_out': 1, 'add_again': 1, 'replace_self': 1}
 
 
 def run_observed(el, ops, skip=()):
